@@ -7,6 +7,8 @@ of the model for that case (or `bad-op` when the line is outside the modelled do
 import OpfVerif.Model.Heap
 import OpfVerif.Model.Forest
 import OpfVerif.Model.Expr
+import OpfVerif.Model.Knn
+import OpfVerif.Model.Lawful
 import OpfVerif.Gen.Distance
 import OpfVerif.Gen.Decorator
 open Opf
@@ -125,6 +127,159 @@ def runDist : RM String := do
     return s!"{v.toBits.toNat}"
   | _, _ => return "bad-op"
 
+def readLists (n : Nat) : RM (Array (List Nat)) := do
+  let mut a := Array.mkEmpty n
+  for _ in [0:n] do
+    let len ← nextN
+    a := a.push (← nextNs len).toList
+  return a
+
+def showLists (a : Array (List Nat)) : String :=
+  " , ".intercalate (a.toList.map fun l => " ".intercalate (l.map toString))
+
+/-- `arcs n k top tiny one w[n*n] priorBound {len entries}*n priorNplat[n] priorRadius[n]` -/
+def runArcs : RM String := do
+  let n ← nextN
+  let k ← nextN
+  let top ← nextI
+  let tiny ← nextI
+  let one ← nextI
+  let m ← nextIs (n * n)
+  let w := fun p q => m.getD (p * n + q) 0
+  let pb ← nextI
+  let adj ← readLists n
+  let np ← nextNs n
+  let rad ← nextIs n
+  let g : KnnSub := { n := n, adj := adj, radius := rad, nplat := np, bound := pb }
+  let (g', maxd) := createArcs w top tiny one k g
+  return s!"{showLists g'.adj} | {showInts g'.radius} | {showNats g'.nplat} | {g'.bound} | {showInts maxd}"
+
+def fbits (f : Float) : String := toString f.toBits.toNat
+def rdF : RM Float := do return Float.ofBits (← nextI).toNat.toUInt64
+
+/-- `pdf k n boundbits {k expbits}*n` -/
+def runPdf : RM String := do
+  let k ← nextN
+  let n ← nextN
+  let bound ← rdF
+  let mut exps : Array (List Float) := #[]
+  for _ in [0:n] do
+    let mut es : Array Float := #[]
+    for _ in [0:k] do es := es.push (← rdF)
+    exps := exps.push es.toList
+  let o := pdfG (0.0 : Float) 1.0 2.0 9.0 1000.0 1.7976931348623157e308 bound k (k + 1).toFloat exps.toList
+  let sh (l : List Float) := " ".intercalate (l.map fbits)
+  return s!"{fbits o.constant} | {fbits o.minD} | {fbits o.maxD} | {sh o.density} | {sh o.cost}"
+
+/-- `qdens minbits maxbits k {expbits}*k` and `elim hbits densbits costbits` -/
+def runQdens : RM String := do
+  let mn ← rdF
+  let mx ← rdF
+  let k ← nextN
+  let mut es : Array Float := #[]
+  for _ in [0:k] do es := es.push (← rdF)
+  return fbits (queryDensityG (0.0 : Float) 1.0 1000.0 1e-20 mn mx k.toFloat es.toList)
+
+def runElim : RM String := do
+  let h ← rdF
+  let n ← nextN
+  let mut out : Array String := #[]
+  for _ in [0:n] do
+    let d ← rdF
+    let c ← rdF
+    out := out.push (fbits (elimG (0.0 : Float) h d c))
+  return " ".intercalate out.toList
+
+/-- `cluster unsup force top negTop k n {adj}*n nplat[n] dens[n] cost[n] tlabel[n] lenOrder order..` -/
+def runCluster : RM String := do
+  let unsup := (← nextN) == 1
+  let force := (← nextN) == 1
+  let top ← nextI
+  let negTop ← nextI
+  let k ← nextN
+  let n ← nextN
+  let adj ← readLists n
+  let np ← nextNs n
+  let dens ← nextIs n
+  let cost ← nextIs n
+  let tl ← nextNs n
+  let lo ← nextN
+  let ord ← nextNs lo
+  let c : Clu := { n := n, adj := adj, nplat := np, dens := dens, cost := cost,
+                   pred := Array.replicate n none, root := Array.replicate n 0, lab := Array.replicate n 0,
+                   tlabel := tl, order := ord, nclusters := 0 }
+  let r := clusterRun unsup force top negTop k c
+  return s!"{showLists r.adj} | {showNats r.nplat} | {showOpt r.pred} | {showNats r.root} | {showNats r.lab} | {showInts r.cost} | {showNats r.order} | {r.nclusters} | {showNats (propagateLabels r)}"
+
+/-- `knnq k n top negTop density dist[n] cost[n] lab[n] clu[n]` : costs of the valid neighbour slots in
+rank order, then label and cluster of the arg-max neighbour (0 0 when there is none) -/
+def runKnnq : RM String := do
+  let k ← nextN
+  let n ← nextN
+  let top ← nextI
+  let negTop ← nextI
+  let dens ← nextI
+  let dist ← nextIs n
+  let cost ← nextIs n
+  let lab ← nextNs n
+  let clu ← nextNs n
+  let buf := queryNeighbours k n top (fun j => dist.getD j 0)
+  let vs := validSlots k top buf
+  let r := knnArgmax negTop (fun j => cost.getD j 0) dens vs
+  let w := match r.1 with | none => "0 0" | some x => s!"{lab.getD x 0} {clu.getD x 0}"
+  return s!"{" ".intercalate (vs.map fun s => toString (cost.getD s.2 0))} | {w}"
+
+def runSelMax : RM String := do
+  let start ← nextI
+  let n ← nextN
+  let accs ← nextIs n
+  return match selectMaxAcc start accs.toList with | none => "-1" | some k => toString k
+
+def runSelCut : RM String := do
+  let top ← nextI
+  let zero ← nextI
+  let minK ← nextN
+  let n ← nextN
+  let cuts ← nextIs n
+  let r := selectMinCut top zero minK cuts.toList
+  return s!"{match r.1 with | none => "-1" | some k => toString k} {r.2}"
+
+/-- `lawfit n top seeds[n] lam[n] w[n*n] pred0[n] lab0[n] lenOrder order..` : replay the real
+conquest order through the relational semantics (tier B). -/
+def runLawFit : RM String := do
+  let n ← nextN
+  let top ← nextI
+  let seeds ← nextNs n
+  let lam ← nextNs n
+  let m ← nextIs (n * n)
+  let p0 ← nextIs n
+  let l0 ← nextNs n
+  let lo ← nextN
+  let ord ← nextNs lo
+  let I : CompInst := { n := n, w := fun p q => m.getD (p * n + q) 0, seed := fun x => seeds.getD x 0 == 1,
+                        lam := fun x => lam.getD x 0, top := top }
+  let pred0 := fun x => let v := p0.getD x (-1); if v < 0 then none else some v.toNat
+  match I.runPicks (I.init pred0 (fun x => l0.getD x 0)) ord.toList with
+  | none => return "unlawful"
+  | some s =>
+    let rng := Array.range n
+    return s!"lawful {if I.isFinal s then 1 else 0} | {showInts (rng.map s.cost)} | {showOpt (rng.map s.pred)} | {showNats (rng.map s.lab)}"
+
+/-- `lawprim n top lam[n] w[n*n] lenOrder order..` : same for Prim (order = removal order). -/
+def runLawPrim : RM String := do
+  let n ← nextN
+  let top ← nextI
+  let lam ← nextNs n
+  let m ← nextIs (n * n)
+  let lo ← nextN
+  let ord ← nextNs lo
+  let I : PrimInst := { n := n, w := fun p q => m.getD (p * n + q) 0, lam := fun x => lam.getD x 0, top := top }
+  match I.runPicks I.init ord.toList with
+  | none => return "unlawful"
+  | some s =>
+    let rng := Array.range n
+    return s!"lawful {if I.isFinal s then 1 else 0} | {showOpt (rng.map s.pred)} | {showBools (rng.map s.proto)}"
+
 def dispatch (line : String) : String :=
   match (line.splitOn " ").filter (· ≠ "") with
   | [] => "bad-op"
@@ -136,6 +291,16 @@ def dispatch (line : String) : String :=
     | "prim" => run runPrim
     | "fit" => run runFit
     | "dist" => run runDist
+    | "arcs" => run runArcs
+    | "pdf" => run runPdf
+    | "qdens" => run runQdens
+    | "elim" => run runElim
+    | "cluster" => run runCluster
+    | "knnq" => run runKnnq
+    | "selmax" => run runSelMax
+    | "selcut" => run runSelCut
+    | "lawfit" => run runLawFit
+    | "lawprim" => run runLawPrim
     | _ => "bad-op"
 
 partial def loop (h : IO.FS.Stream) (out : IO.FS.Stream) : IO Unit := do
